@@ -101,10 +101,13 @@ class C19(Check):
     lean_targets = ["drv_c19"]
     driver = "drv_c19"
     theorems = ["Pox.C19.cull_loop_is_closed_form", "Pox.C19.calc_raises_iff_selfloop", "Pox.C19.tree_is_forest", "Pox.C19.tree_edge_is_bridge",
-                "Pox.C19.calc_terminates", "Pox.C19.link_events", "Pox.C19.adjacency_exact", "Pox.C19.adjacency_ends_connected",
-                "Pox.C19.flood_ports", "Pox.C19.flood_ports_forest", "Pox.C19.port_mods_are_changes", "Pox.C19.send_failure_recovery", "Pox.C19.bits_are_prev", "Pox.C19.flood_bits",
+                "Pox.C19.calc_terminates", "Pox.C19.link_events", "Pox.C19.event_iff_change", "Pox.C19.in_adjacency_iff_last_added",
+                "Pox.C19.adjacency_exact", "Pox.C19.adjacency_ends_connected", "Pox.C19.down_withdraws", "Pox.C19.sweep_bounds_age",
+                "Pox.C19.flood_ports_partial", "Pox.C19.flood_ports_full_repaired", "Pox.C19.flood_keeps", "Pox.C19.flood_ports_forest",
+                "Pox.C19.cable_floods_iff_tree_edge", "Pox.C19.reach_unique",
+                "Pox.C19.port_mods_are_changes", "Pox.C19.send_failure_recovery", "Pox.C19.bits_are_prev", "Pox.C19.flood_bits",
                 "Pox.C19.probe_roundtrip", "Pox.C19.flood_ports_defect_D20", "Pox.C19.flood_ports_defect_skip",
-                "Pox.C19.flood_ports_defect_outside_tree"]
+                "Pox.C19.flood_ports_defect_outside_tree", "Pox.C19.flood_ports_defect_oneway_loop"]
     anchors = [("pox/openflow/discovery.py", "LLDPSender.create_packet_out"), ("pox/openflow/discovery.py", "LLDPSender._create_discovery_packet"),
                ("pox/openflow/discovery.py", "Discovery._handle_openflow_ConnectionDown"), ("pox/openflow/discovery.py", "Discovery._expire_links"),
                ("pox/openflow/discovery.py", "Discovery._handle_openflow_PacketIn"), ("pox/openflow/discovery.py", "Discovery._delete_links"),
@@ -116,7 +119,12 @@ class C19(Check):
                     "the culling loop of _calc_spanning_tree is modelled as written (dict-of-dicts as one insertion-ordered association list) and proved equal to the closed form "
                     "the other proofs use (cull_loop_is_closed_form); the iteration order of the `switches` set is an oracle argument fed from the harness",
                     "harness: stub connections / stub Timer / virtual clock; the union-find forest oracle"]
-    assumptions = ["_hold_down and _noflood_by_default are off (their defaults); in histories con.send never raises (the `except: _prev.clear()` path is modelled and compared for single _update_tree() calls: kind upd, theorem send_failure_recovery)",
+    assumptions = ["LLDPSender's schedule (add_port / del_port / _timer_handler: which ports are probed, and when) is neither modelled nor anchored: probes are ops of the "
+                   "history, so 'the adjacency contains every live link' rests on the environment delivering a probe over every live link at least once per timeout; "
+                   "only create_packet_out / _create_discovery_packet (the probe's content) are modelled",
+                   "expiry sweeps are ops too: the recurring Timer(_timeout_check_period, _expire_links) is replaced by a stub, so 'a silent link is withdrawn within "
+                   "timeout + check period' assumes the Timer fires; sweep_bounds_age says what one sweep guarantees",
+                   "_hold_down and _noflood_by_default are off (their defaults); in histories con.send never raises (the `except: _prev.clear()` path is modelled and compared for single _update_tree() calls: kind upd, theorem send_failure_recovery)",
                    "a port's NO_FLOOD bit is what the last port_mod on the current connection said; a (re)connecting switch starts with flooding enabled on every port",
                    "cables are point to point (a port is an end of at most one cable) and join two different switches; a switch with two of its own ports cabled together makes "
                    "_calc_spanning_tree raise AssertionError (theorem calc_raises_iff_selfloop; modelled, compared, but outside the property's quantifier)",
@@ -129,11 +137,13 @@ class C19(Check):
                   "uses only bidirectional links and connects exactly what those connect, within 2|switches| iterations; for EVERY history the LinkEvent stream alternates per link and the "
                   "adjacency is exactly the links with a recent accepted probe and no disconnect since; after every change the repaired handlers leave exactly the tree ports and the "
                   "host-facing ports of every tree switch flooding; the probe round-trips for every dpid < 2^64 and port < 2^16.  Defect witnesses (decide) for the pinned code.")
-    level_note = ("The models follow the code with the repairs D20 (discovery pops before it raises) and C19-1 (spanning_tree always recomputes), both committed "
-                  "(Variant `fixed`); the code before them is Variant `pinned`, refuted by flood_ports_defect_D20 / flood_ports_defect_skip. "
-                  "flood_bits states flood_ports for the NO_FLOOD bits the port_mods leave on the switches (bits_are_prev, port_mods_are_changes), given that every port_mod is applied. "
-                  "Trusted: Lean kernel, axioms propext/Classical.choice/Quot.sound, the hand-written models, this harness. The theorems are about the models; the runs below are what "
-                  "connects them to the code. Switches without any bidirectional link are not updated by _update_tree (proposed known finding C19-2); flood_ports is stated for tree switches.")
+    level_note = ("The model has three variants of the handlers: `pinned` (before D20 / C19-1), `fixed` (with them: /repo today), `full` (plus the repair "
+                  "fixes/C19-2_update_tree_all_switches.diff: _update_tree goes through every connected switch).  The harness probes which one the code under test "
+                  "behaves like (evidence: variant_detected) and compares against that variant; the oracle is the FULL property (every connected switch), which `fixed` "
+                  "violates (theorems flood_ports_defect_oneway_loop / flood_ports_defect_outside_tree; findings C19-2 and proposed C19-3) and `full` satisfies "
+                  "(flood_ports_full_repaired, flood_keeps).  flood_bits / bits_are_prev / port_mods_are_changes tie _prev to the NO_FLOOD bits on the switches, given that "
+                  "every port_mod is applied.  Trusted: Lean kernel, axioms propext/Classical.choice/Quot.sound, the hand-written models, this harness; the theorems are "
+                  "about the models, the runs below are what connects them to the code.")
     rule = ("calc (dict order shuffled per case): 2 and 3 switches exhaustive over all 13 cable options per pair (none / 1 / 2 parallel cables, each bidirectional or one-way "
             "either way); 4 switches exhaustive over 5 options per pair (5^6; thorough: 6 options, 6^6, + 100000 sampled over all 13); 5 switches (thorough) exhaustive over {none, bidirectional, "
             "one-way} (3^10) + 60000 sampled over all 13; random multigraphs on 5..12 switches; arbitrary link lists with shared / crossed ports.  hist: random topologies of 2..6 switches with redundant / parallel / one-way "
@@ -142,7 +152,8 @@ class C19(Check):
     coverage_cases = 10 ** 9          # trace every case (the tracer only follows the anchored files)
 
     def extra_evidence(self):
-        return {"prev_shape": self._prev_shape(),
+        return {"variant_detected": self.variant, "variant_note": getattr(self, "variant_note", ""),
+                "prev_shape": self._prev_shape(),
                 "upd_cases_without_prev_comparison": getattr(self, "_skipped_upd", 0),
                 "note_prev": "spanning_tree._prev is read / preset only by the `upd` kind, through an adapter for the nested and the flat {(dpid, port): b} shape; "
                              "histories observe flood state only through the port_mods sent and a harness-owned per-switch port config that a reconnect resets",
@@ -176,6 +187,33 @@ class C19(Check):
             self._events.append([bool(e.added), list(e.link)])
         self.D.addListenerByName("LinkEvent", rec, priority=1 << 40)
         self.real_conns = core.openflow._connections
+        self.variant = self._probe_variant()
+
+    def _probe_variant(self):
+        """which of the modelled variants of the handlers the code under test behaves like (three behaviour probes through the real
+        code; the oracle does not depend on the answer, the model comparison does)"""
+        P = lambda a, b: {"k": "probe", "from": list(a), "to": list(b)}
+        def run(topo, ops): return self._impl_hist({"kind": "hist", "topo": topo, "ops": ops})["steps"]
+        v = {"popFirst": True, "skip": False, "visitAll": False}
+        try:
+            self._reset()
+            two = {"switches": {"1": [1, 2, 3], "2": [1, 2, 3]}, "cables": [[[1, 1], [2, 1]], [[2, 2], [1, 2]]]}
+            st = run(two, [{"k": "up", "dpid": 1}, {"k": "up", "dpid": 2}, P((1, 1), (2, 1))])
+            v["visitAll"] = bool(st[-1]["mods"])                  # a port_mod for a switch outside the (empty) tree
+            self._reset()
+            line = {"switches": {"1": [1, 2], "2": [1, 2], "3": [1], "4": [1]}, "cables": [[[1, 1], [3, 1]], [[2, 1], [4, 1]], [[1, 2], [2, 2]]]}
+            ops = [{"k": "up", "dpid": d} for d in (1, 2, 3, 4)] + [P((1, 1), (3, 1)), P((2, 1), (4, 1)), P((3, 1), (1, 1)), P((4, 1), (2, 1)),
+                                                                     P((1, 2), (2, 2)), P((2, 2), (1, 2))]
+            v["skip"] = not run(line, ops)[-1]["mods"]            # second direction of the joining link ignored
+            self._reset()
+            tri = {"switches": {"1": [1, 2], "2": [1, 2], "3": [1, 2]}, "cables": [[[1, 1], [2, 1]], [[2, 2], [3, 1]], [[1, 2], [3, 2]]]}
+            c = [((1, 1), (2, 1)), ((2, 2), (3, 1)), ((1, 2), (3, 2))]
+            ops = [{"k": "up", "dpid": d} for d in (1, 2, 3)] + [P(a, b) for a, b in c] + [P(b, a) for a, b in c] + [{"k": "down", "dpid": 1}]
+            v["popFirst"] = [2, 2, True] in run(tri, ops)[-1]["mods"]   # 2-3 opens when switch 1 goes: the tree was computed without its links
+        except Exception as e:
+            self.variant_note = "probing failed (%s: %s); assuming the repaired variant" % (type(e).__name__, e)
+        self._reset()
+        return v
 
     def _reset(self):
         self.D.adjacency.clear()
@@ -673,7 +711,7 @@ class C19(Check):
         if k == "upd":
             if "skipped" in obs: return None
             return {"op": "update", "adj": case["links"], "order": obs["order"], "conns": [[int(d), ps] for d, ps in case["conns"].items()],
-                    "prev": case["prev"], "fail": case["fail"]}
+                    "prev": case["prev"], "fail": case["fail"], "all": self.variant["visitAll"]}
         if k == "codec":
             return {"op": "pack", "dpid": case["dpid"], "port": case["port"], "hw": obs["hw"], "ttl": 120}
         if k == "hist":
@@ -686,7 +724,7 @@ class C19(Check):
                 elif kk == "down": ops.append({"k": "down", "dpid": op["dpid"], "order": st["order"]})
                 elif kk == "sweep": ops.append({"k": "sweep", "order": st["order"]})
                 elif kk == "probe": ops.append({"k": "probe", "l": op["from"] + op["to"], "order": st["order"]})
-            return {"op": "history", "variant": "fixed", "ops": ops}
+            return {"op": "history", "variant": self.variant, "ops": ops}
         return None
 
     def impl_view(self, case, obs):
@@ -807,14 +845,16 @@ class C19(Check):
                 if on(e1): enabled.append((e1, e2))
             f = forest_check(adj, enabled, sorted({a for a, b, c, d in adj} | {c for a, b, c, d in adj}))
             if f: return "flood: after %s: enabled links are %s" % (op["k"], f)
-            # the statement of flood_ports / flood_bits for every connected switch of the tree: a port that is an endpoint of a known
-            # link floods only if it is a tree port -- an endpoint of one-way links only is never one
+            # the statement of flood_ports_full / flood_bits for EVERY connected switch: a port that is an endpoint of a known link
+            # floods only if it is a tree port -- an endpoint of one-way links only never is; a port without a known link floods.
+            # (for a switch outside the tree the two failures are the symptoms of "_update_tree visits only the tree": keyed apart)
             bidirports = {e for c in cables for e in c}
             for d in st["snap"]["up"]:
-                if d not in treesw: continue
                 for p in sw[d]:
                     if p < OFPP_MAX and (d, p) in linkports and (d, p) not in bidirports and on((d, p)):
-                        return "flood: after %s: port %d.%d of a tree switch is an end of a one-way link only and still floods" % (op["k"], d, p)
+                        if d in treesw:
+                            return "flood: after %s: port %d.%d of a tree switch is an end of a one-way link only and still floods" % (op["k"], d, p)
+                        low.insert(0, "flood: outside-tree switch: port %d.%d is an end of a one-way link and still floods (after %s)" % (d, p, op["k"]))
             for d in st["snap"]["up"]:
                 for p in sw[d]:
                     if p < OFPP_MAX and (d, p) not in linkports and not on((d, p)):
@@ -823,7 +863,8 @@ class C19(Check):
         return low[0] if low else None
 
     def finding_key(self, case, obs, failure):
-        if failure.startswith("flood: outside-tree switch"): return "flood:outside-tree-switch:host-port-noflood"
+        if failure.startswith("flood: outside-tree switch"):
+            return "flood:outside-tree-switch:" + ("link-port-floods" if "one-way link" in failure else "host-port-noflood")
         if failure.startswith("flood: after"):
             k = failure.split()[2].rstrip(":")
             what = ("half-enabled" if "one end only" in failure else "cycle" if failure.endswith("cycle") else
